@@ -40,6 +40,15 @@ BYTES: List[Tuple[str, bytes]] = [
     ('"a\\nb"', b"a\nb"),
     ('""', b""),
     ('"base64"', b"base64"),
+    # one text that is valid in both alphabets and decodes differently (a decoder must not answer
+    # for the other encoding, whatever was parsed before)
+    ("base64 MFRGGZDF", base64.b64decode("MFRGGZDF")),
+    ("base32 MFRGGZDF", b"abcde"),
+    ("b64(MFRGGZDF)", base64.b64decode("MFRGGZDF")),
+    ("b32(MFRGGZDF)", b"abcde"),
+    ("b64 AEBA", base64.b64decode("AEBA")),
+    ('"0x0102"', b"0x0102"),
+    ('"AQI="', b"AQI="),
 ]
 
 
@@ -243,6 +252,13 @@ def items(tier: str) -> List[Any]:
     out: List[Any] = [("line", l) for l in base_lines(tier)]
     out += [("unknown", l) for l in UNKNOWN]
     out.append(("linenumbers", ""))
+    # operation sequences: every ordered pair of base lines parsed one after the other in one process
+    # (a parse must not depend on what was parsed before); one item per first line
+    bl = base_lines(tier)
+    out += [("pairs", l) for l in bl]
+    # the same lines inside a program, through parse_teal (all passes), alone and after every other
+    # line of the same opcode family
+    out += [("program", l) for l in bl]
     return out
 
 
@@ -293,6 +309,54 @@ def worker(item: Any, res: runner.Result) -> None:  # pylint: disable=too-many-l
                 res.violation("C16.unsupported-not-verbatim", item, line=l2, kept=ins.verbatim_line)
         res.mark_nontrivial(line)
         return
+    if kind == "pairs":
+        others = _BASE.get("lines")
+        if others is None:
+            others = _BASE["lines"] = base_lines(runner_tier())
+            _BASE["want"] = {l: denote(l) for l in others}
+        wants = _BASE["want"]
+        for l2 in others:
+            try:
+                with harness.capture():
+                    i1 = parse_line(line)
+                    i2 = parse_line(l2)
+                p1, p2 = str(i1), str(i2)
+            except BaseException as e:  # pylint: disable=broad-except
+                res.violation("C16.parse-crash", item, first=line, second=l2, error=repr(e))
+                continue
+            res.count("lines_parsed", 2)
+            res.count("ordered_pairs")
+            if _denote_cached(p1) != wants[line] or _denote_cached(p2) != wants[l2]:
+                res.violation("C16.parse-depends-on-earlier-parses", item, first=line, second=l2, printed_first=p1, printed_second=p2,
+                              expected=[repr(wants[line]), repr(wants[l2])])
+        res.mark_nontrivial("pairs:" + line)
+        return
+    if kind == "program":
+        want = denote(line)
+        labels = sorted({t for t in split_tokens(line)[1:] if want is not None and spec.BY_NAME.get(want[0]) is not None
+                         and any(k in ("label", "labels") for k in spec.BY_NAME[want[0]].imms)})
+        for pre in ("", "int 1\n"):
+            src = "#pragma version 8\n" + pre + line + "\n" + "".join(f"{l}:\nint 1\n" for l in labels) + "int 1\nreturn\n"
+            at = 2 + pre.count("\n")
+            try:
+                teal, _ = harness.parse(src)
+            except BaseException as e:  # pylint: disable=broad-except
+                res.violation("C16.program-parse-crash", item, program=src, error=repr(e))
+                continue
+            res.count("programs_parsed")
+            hit = [i for i in teal.instructions if i.line == at]
+            # an instruction behind a terminator is pruned as unreachable: nothing to compare then
+            if not hit:
+                res.count("program_line_pruned")
+                continue
+            printed = str(hit[0])
+            if _denote_cached(printed) != want:
+                res.violation("C16.program-instruction-differs-from-its-line", item, program=src, line_no=at, printed=printed,
+                              expected=repr(want), actual=repr(_denote_cached(printed)))
+            if hit[0].source_code.strip() != line:
+                res.violation("C16.source-code-not-kept", item, program=src, kept=hit[0].source_code)
+        res.mark_nontrivial("program:" + line)
+        return
     want = denote(line)
     if want is None:
         res.errors.append(f"G4 generated a line the table cannot read: {line!r}")
@@ -339,8 +403,27 @@ def worker(item: Any, res: runner.Result) -> None:  # pylint: disable=too-many-l
     res.sample({"line": line, "printed": base_str})
 
 
+_BASE: Dict[str, Any] = {}
+_DEN: Dict[str, Any] = {}
+
+
+def _denote_cached(printed: str) -> Any:
+    if printed not in _DEN:
+        _DEN[printed] = denote(printed)
+    return _DEN[printed]
+
+
+def runner_tier() -> str:
+    import os  # pylint: disable=import-outside-toplevel
+
+    return os.environ.get("VERIF_TIER_EFFECTIVE", "quick")
+
+
 def main(argv: List[str]) -> int:
     tier, seed = runner.tier_and_seed(argv)
+    import os  # pylint: disable=import-outside-toplevel
+
+    os.environ["VERIF_TIER_EFFECTIVE"] = tier
     t0 = time.time()
     its = runner.rotate(items(tier), seed)
     total = runner.execute("mc.checks.c16", "worker", its, chunk=100)
@@ -350,7 +433,10 @@ def main(argv: List[str]) -> int:
         "rule": "every opcode of the v1-v8 table x every field of its group x immediate spellings (uint64 in decimal/hex/octal incl. "
         "2^64-1, named constants, 19 byte-string spellings incl. base64/base32 in four syntaxes and quoted strings with spaces, //, "
         "escapes; label names that are opcode names) x 9 whitespace/comment layouts; unknown opcodes x 5 layouts; line numbers; "
-        "distinct = base line; non-trivial = all",
+        "every ordered pair of base lines parsed one after the other in one process (history independence of parse_line); every "
+        "base line inside a program through parse_teal (first and second instruction); distinct = base line; non-trivial = all",
+        "ordered_pairs": c.get("ordered_pairs", 0),
+        "programs_parsed": c.get("programs_parsed", 0),
         "exhaustive": True,
         "base_lines": len(its),
     }
